@@ -63,6 +63,7 @@ CONSTANTS
   PDESCS, FDESCS,       \* part / file description classes ("" = none)
   FNAMES, FCIDS,        \* file name / content-id classes ("" = default)
   OPSEQS,               \* render-operation sequences (C11)
+  ROUNDTRIP,            \* subset of BOOLEAN: parse the rendering with the EML parser and render again (C10)
   FAULTS                \* render faults (C12): records [kind, slot, when]; kind "none" = no fault
 
 VARIABLES prog, pc
@@ -93,7 +94,7 @@ AllProgs ==
 Live(p) == SelectSeq(p.parts, LAMBDA x : ~x.del)
 Progs == {p \in AllProgs : Len(Live(p)) + Len(p.embeds) + Len(p.atts) >= 1}
 
-Scenarios == {[prog |-> p, ops |-> o, fault |-> f] : p \in Progs, o \in OPSEQS, f \in FAULTS}
+Scenarios == {[prog |-> p, ops |-> o, fault |-> f, roundtrip |-> rt] : p \in Progs, o \in OPSEQS, f \in FAULTS, rt \in ROUNDTRIP}
 
 Init == prog \in Scenarios /\ pc = "built"
 Render == pc = "built" /\ pc' = "done" /\ UNCHANGED prog
@@ -113,7 +114,7 @@ NoDegenerateLayer ==
      \* a layer that is opened contains at least two children
      Cardinality({j \in (i + 1)..Len(t) : t[j] # ")"}) >= 2
 
-Scenario == [prog |-> prog.prog, ops |-> prog.ops,
+Scenario == [prog |-> prog.prog, ops |-> prog.ops, roundtrip |-> prog.roundtrip,
              tree |-> [toks |-> ExpectedToks(NP, NE, NA)]] @@
             (IF prog.fault.kind = "none" THEN <<>> ELSE [fault |-> prog.fault])
 Emit == pc = "done" => PrintT(<<"SCENARIO", ToJson(Scenario)>>)
